@@ -15,6 +15,14 @@ RULE = ('random ontologies containing HP:0000118 with 1-4 organ-system children,
 
 THEOREM = 'Hpv.Props.C10.*'
 SCALE = 8
+# the model works over integers; the implementation gets value FMAP(k): any strictly increasing map with 0 -> 0 preserves "max" and
+# "positive". 'eighths' (k / 8) keeps float arithmetic exact; 'tiny' sends the small integers to denormal / sub-epsilon floats
+TINY = {0: 0.0, 1: 5e-324, 2: 1e-300, 4: 1.1e-16, 5: 2.3e-16, 8: 1e-9, 13: 0.5, 40: 7.0}
+_MODE = {'fmap': None}
+
+
+def fwd(k):
+    return k / SCALE if _MODE['fmap'] is None else _MODE['fmap'][k]
 
 
 def pa_id():
@@ -31,13 +39,16 @@ def impl_precalc(edges, ic):
     g = gl.build_impl('indexed', edges)
     terms = [MinimalTerm.create_minimal_term(t, name=t.value, alt_term_ids=(), is_obsolete=False) for t in g]
     hpo = create_minimal_ontology(g, terms, 'v')
-    icc = SimpleAnnotationIcContainer({TermId.from_curie(k): v / SCALE for k, v in ic.items()}, metadata={})
+    icc = SimpleAnnotationIcContainer({TermId.from_curie(k): fwd(v) for k, v in ic.items()}, metadata={})
     with warnings.catch_warnings():
         warnings.simplefilter('ignore')
         return precalculate_ic_mica_for_hpo_concept_pairs(icc, hpo)
 
 
 def to_int(x):
+    if _MODE['fmap'] is not None:
+        inv = {v: k for k, v in _MODE['fmap'].items()}
+        return inv.get(float(x), float(x))
     y = x * SCALE
     return int(y) if float(y).is_integer() else y
 
@@ -176,6 +187,17 @@ def run(ctx):
         cases.append((edges, random_ic(rng, edges)))
     for i in range(0, len(cases), 100):
         evaluate(ctx, cases[i:i + 100], 'random')
+    # the same kind of cases with information contents that are tiny positive floats (denormals, values below machine epsilon)
+    _MODE['fmap'] = TINY
+    try:
+        tiny_cases = []
+        for _ in range(120 if thorough else 40):
+            edges = random_hpo(rng, rng.randrange(2, 14))
+            ic = {n: rng.choice([0, 1, 2, 4, 5, 8, 13, 40]) for n in gl.nodes_of(edges) if rng.random() < 0.8}
+            tiny_cases.append((edges, ic))
+        evaluate(ctx, tiny_cases, 'tiny information contents (5e-324 ... 2.3e-16)')
+    finally:
+        _MODE['fmap'] = None
     dense_ontology(ctx, rng)
 
 
